@@ -20,9 +20,11 @@ import (
 // with the model's corsDecision / wsOriginOK. Spec monitor: a refused request causes no service
 // request; a non-listed origin is never echoed.
 func suiteCors(tier string, r *rng) func(emit func(pureCase)) {
-	allows := []string{"*", "http://a.example", "http://a.example;https://b.example:8080", "https://b.example:8080;http://a.example", "HTTPS://B.example:8080"}
+	allows := []string{"*", "http://a.example", "http://a.example;https://b.example:8080", "https://b.example:8080;http://a.example", "HTTPS://B.example:8080",
+		"http://B\u00dcCHER.example", "http://\u212a.example;http://a.example"}
 	origins := []string{"-", "", "null", "NULL", "http://a.example", "HTTP://A.EXAMPLE", "http://A.example", "https://b.example:8080", "http://evil.example",
-		"http://a.example ", " http://a.example", "http://a.example.evil", "*", "http://a.exampl", "http://a.example;https://b.example:8080", "\x00", "http://\xff.example"}
+		"http://a.example ", " http://a.example", "http://a.example.evil", "*", "http://a.exampl", "http://a.example;https://b.example:8080", "\x00", "http://\xff.example",
+		"http://B\u00dcCHER.example", "http://b\u00dccher.EXAMPLE", "http://b\u00fccher.example", "http://k.example", "http://K.example", "http://\u212a.example"}
 	return func(emit func(pureCase)) {
 		for _, allow := range allows {
 			m := newMockMQ()
@@ -43,7 +45,7 @@ func suiteCors(tier string, r *rng) func(emit func(pureCase)) {
 			// the list as Config.prepare stores it: lower-cased and sorted
 			var lowered []string
 			for _, a := range strings.Split(allow, ";") {
-				lowered = append(lowered, strings.ToLower(a))
+				lowered = append(lowered, lowerASCII(a))
 			}
 			sort.Strings(lowered)
 			var allowHex []string
@@ -129,7 +131,7 @@ func suiteCors(tier string, r *rng) func(emit func(pureCase)) {
 					if allow != "*" && origin != "-" && origin != "null" {
 						wantRefused = true
 						for _, a := range lowered {
-							if strings.EqualFold(a, origin) && len(a) == len(origin) {
+							if lowerASCII(a) == lowerASCII(origin) {
 								wantRefused = false
 							}
 						}
